@@ -603,10 +603,9 @@ func (tx *FnTx) appendBuiltin(cc *ssa.CallCommon, v ssa.Value, st *State) *State
 	et := cc.Args[0].Type().Underlying().(*types.Slice).Elem()
 	comp := tx.h.elemComp(et)
 	H := tx.h.heapTerm(st, comp)
-	H2 := tx.d.fresh("Hap_"+comp.Name, comp.sort())
 	r := tx.define(v, "")
 	tx.nq++
-	o, p := fmt.Sprintf("o_a%d", tx.nq), fmt.Sprintf("p_a%d", tx.nq)
+	p := fmt.Sprintf("p_a%d", tx.nq)
 	var tLen string
 	tval := func(idx string) string {
 		if t.Sort == "Str" {
@@ -624,22 +623,26 @@ func (tx *FnTx) appendBuiltin(cc *ssa.CallCommon, v ssa.Value, st *State) *State
 	newLen := "(+ " + ls + " " + tLen + ")"
 	inplace := "(<= " + newLen + " (s-cap " + s.S + "))"
 	zero := tx.d.zero(et).S
-	// in place
-	selH2 := fmt.Sprintf("(select (select %s %s) %s)", H2, o, p)
-	selH := fmt.Sprintf("(select (select %s %s) %s)", H, o, p)
+	arrSort := "(Array Int " + comp.VSort + ")"
+	// case 1: in place - the tail of s's backing array receives t
+	A1 := tx.d.fresh("Aap_"+comp.Name, arrSort)
 	tailStart := "(+ (s-off " + s.S + ") " + ls + ")"
-	inTail := sand("(= "+o+" (s-obj "+s.S+"))", "(<= "+tailStart+" "+p+")", "(< "+p+" (+ "+tailStart+" "+tLen+"))")
-	caseIn := sand(
-		fmt.Sprintf("(= %s (mk-slice (s-obj %s) (s-off %s) %s (s-cap %s)))", r.S, s.S, s.S, newLen, s.S),
-		fmt.Sprintf("(forall ((%s Int) (%s Int)) (! (= %s (ite %s %s %s)) :pattern (%s)))", o, p, selH2, inTail, tval("(- "+p+" "+tailStart+")"), selH, selH2))
-	newContent := fmt.Sprintf("(ite (and (<= 0 %s) (< %s %s)) (select (select %s (s-obj %s)) (+ (s-off %s) %s)) (ite (and (<= %s %s) (< %s %s)) %s %s))",
-		p, p, ls, H, s.S, s.S, p, ls, p, p, newLen, tval("(- "+p+" "+ls+")"), zero)
-	caseNew := sand(
-		"(= (s-obj "+r.S+") "+st.alloc+")", "(= (s-off "+r.S+") 0)", "(= (s-len "+r.S+") "+newLen+")", "(>= (s-cap "+r.S+") "+newLen+")",
-		fmt.Sprintf("(forall ((%s Int) (%s Int)) (! (= %s (ite (= %s (s-obj %s)) %s %s)) :pattern (%s)))", o, p, selH2, o, r.S, newContent, selH, selH2))
-	tx.assume(fmt.Sprintf("(ite %s %s %s)", inplace, caseIn, caseNew))
+	inTail := sand("(<= "+tailStart+" "+p+")", "(< "+p+" (+ "+tailStart+" "+tLen+"))")
+	oldArr := "(select " + H + " (s-obj " + s.S + "))"
+	tx.assume(fmt.Sprintf("(forall ((%s Int)) (! (= (select %s %s) (ite %s %s (select %s %s))) :pattern ((select %s %s))))",
+		p, A1, p, inTail, tval("(- "+p+" "+tailStart+")"), oldArr, p, A1, p))
+	// case 2: a fresh backing array: old elements, then t, then zeros
+	A2 := tx.d.fresh("Aan_"+comp.Name, arrSort)
+	newContent := fmt.Sprintf("(ite (and (<= 0 %s) (< %s %s)) (select %s (+ (s-off %s) %s)) (ite (and (<= %s %s) (< %s %s)) %s %s))",
+		p, p, ls, oldArr, s.S, p, ls, p, p, newLen, tval("(- "+p+" "+ls+")"), zero)
+	tx.assume(fmt.Sprintf("(forall ((%s Int)) (! (= (select %s %s) %s) :pattern ((select %s %s))))", p, A2, p, newContent, A2, p))
+	newObj := tx.d.fresh("obj_"+v.Name(), "Int")
+	tx.assume("(= " + newObj + " " + st.alloc + ")")
+	capNew := tx.d.fresh("cap_"+v.Name(), "Int")
+	tx.assume("(>= " + capNew + " " + newLen + ")")
+	tx.assume(fmt.Sprintf("(= %s (ite %s (mk-slice (s-obj %s) (s-off %s) %s (s-cap %s)) (mk-slice %s 0 %s %s)))", r.S, inplace, s.S, s.S, newLen, s.S, newObj, newLen, capNew))
 	ns := st.clone()
-	ns.heaps[comp.Name] = H2
+	ns.heaps[comp.Name] = fmt.Sprintf("(ite %s (store %s (s-obj %s) %s) (store %s %s %s))", inplace, H, s.S, A1, H, newObj, A2)
 	ns.alloc = "(+ " + st.alloc + " 1)"
 	ns.hv = tx.d.fresh("hv", "Int")
 	return ns
